@@ -369,7 +369,35 @@ def shapes_for(tier):
         big = [(1000, 3), (3, 1000), (129, 17), (18, 130), (64, 48), (1, 3000), (3000, 1), (2, 1025), (1025, 2),
                (257, 33), (33, 257), (100, 90), (4097, 2), (2, 4097), (5000, 1), (1, 5000), (48, 176),
                (639, 63), (63, 639), (256, 256), (1, 60000), (60000, 1), (20000, 3), (3, 20000), (255, 241)]
-    return grid, big
+    # literal-guided shapes: a kernel that treats tall / wide matrices specially (`if height >= 1024 { .. }`) escapes every fixed
+    # grid; the thresholds are the integer literals >= 16 of the transposition sources (today only shuffle immediates)
+    for c in transpose_literals():
+        big += [(16, c + 1), (c + 1, 16), (17, c), (c, 17), (40, c + 4), (c + 4, 24), (16, c + 9)]
+    return grid, sorted(set(big))
+
+
+_TL = None
+
+
+def transpose_literals():
+    global _TL
+    if _TL is None:
+        import glob
+        vals = set()
+        for p in glob.glob(os.path.join(lib.REPO, "cfavml-gemm", "src", "transpose", "*.rs")):
+            try:
+                src = open(p).read()
+            except OSError:
+                continue
+            k = src.find("#[cfg(test)]")
+            src = src if k < 0 else src[:k]
+            src = re.sub(r"//[^\n]*", "", src)
+            for m in re.finditer(r"(?<![\w.])(0x[0-9a-fA-F_]+|\d[\d_]*)(?:usize|u32|u64|i32)?(?![\w.])", src):
+                v = int(m.group(1).replace("_", ""), 0)
+                if 16 <= v <= 20000:
+                    vals.add(v)
+        _TL = sorted(vals)[:8]
+    return _TL
 
 
 OVERFLOWS = [
